@@ -708,7 +708,8 @@ bool exec_str_b(Ctx &c, const Op &op) {
         // the string operand handed over as an rvalue - std::move(s) + text: an rvalue overload may consume it when the call succeeds (a move applied to
         // that object), but after a call that threw it must hold what it held
         const bool rv = ((op.d >> 9) & 3) == 3 && !self;
-        note_sig(c, op, std::string(A.kind_name()) + ",obj=" + cl(x) + ",in=" + A.cls + (left ? ",left" : "") + (self ? ",self" : "") + (A.wf ? "" : ",invalid") + (rv ? ",rvalue_operand" : ""));
+        const bool deduced = !rv && ((op.d >> 11) & 3) == 3;
+        note_sig(c, op, std::string(A.kind_name()) + ",obj=" + cl(x) + ",in=" + A.cls + (left ? ",left" : "") + (self ? ",self" : "") + (A.wf ? "" : ",invalid") + (rv ? ",rvalue_operand" : "") + (deduced ? ",deduced" : ""));
         c.budget_bytes = (A.in_bytes + x->model.size()) * 3;
         if (rv) { as_rvalue(x); note_mutating(c, x); } else as_const(x);
         if (A.pool_obj) as_const(A.pool_obj);
@@ -717,6 +718,14 @@ bool exec_str_b(Ctx &c, const Op &op) {
         void *mem = obj_alloc(sizeof(S));
         ExcKind ex = run_sut(c, op, [&] {
             with_arg(A, [&](auto &&a, auto &&...) {
+                if (deduced) {
+                    // the type of the sum is deduced and the string operand is gone before the sum is first used: whatever `+` returns must own its value
+                    std::unique_ptr<S> tmp(new S(*x->p()));
+                    auto r = left ? (std::forward<decltype(a)>(a) + *tmp) : (*tmp + std::forward<decltype(a)>(a));
+                    tmp.reset();
+                    new (mem) S(std::move(r));
+                    return;
+                }
                 if (rv) { if (left) new (mem) S(std::forward<decltype(a)>(a) + std::move(*x->p())); else new (mem) S(std::move(*x->p()) + std::forward<decltype(a)>(a)); }
                 else if (left) new (mem) S(std::forward<decltype(a)>(a) + *x->p()); else new (mem) S(*x->p() + std::forward<decltype(a)>(a));
             });
